@@ -421,7 +421,9 @@ class LayoutSegment:
             lines = []
             if pad_left:
                 lines.append((1, spos - 1))
-            lines.append((end - start - pad_left - pad_right, spos, epos))
+            if (remaining := end - start - pad_left - pad_right) > 0:
+                # (nothing remains when only half of a double-width character was left)
+                lines.append((remaining, spos, epos))
             if pad_right:
                 lines.append((1, epos))
             return lines
